@@ -130,7 +130,7 @@ def correspond(ctx):
     return {'number_format_cells': nfmt, 'number_format': fdist, 'evaluations': nfmt + len(allc), 'cases': allc, 'nontrivial': core.distinct_count([c for c in cases if len(c['elements']) >= 2]) + core.distinct_count(pcases),
             'rule': 'EAM and Finnis-Sinclair models with 1..4 elements (shuffled), random subsets of pairs declared in either order, grids with and without n % 4 = 0, through writeTABEAM / writeTABEAMFinnisSinclair and the TABEAM tabulation classes (recording callables), '
                     'and potable DL_POLY_EAM / DL_POLY_EAM_fs; whole file text compared; non-trivial = two or more elements or a potable model',
-            'samples': cases[:2] + pcases[:1], 'distribution': dist, 'disagreements': dis[:20], 'oracle_cases': allc}
+            'samples': cases[:2] + pcases[:1], 'distribution': dist, 'disagreements': dis[:20], 'oracle_cases': allc + plain_callable_corpus()}
 
 def parse_tabeam(text):
     lines = text.split('\n')
@@ -157,7 +157,47 @@ def parse_tabeam(text):
         blocks.append({'kind': kind, 'species': h[1:1 + nsp], 'n': n, 'start': start, 'end': end, 'vals': flat})
     return declared, blocks
 
+def plain_callable_corpus():
+    """TABEAM through the Python API with ordinary Python functions (plain arithmetic, a ZeroDivisionError guard for r = 0, a branch on the
+    argument) on grids of several hundred points: each value is the function applied to ONE float, i*step"""
+    return [{'plain_callables': True, 'fs': False, 'nr': 600, 'nrho': 520, 'route': 'function'}, {'plain_callables': True, 'fs': True, 'nr': 512, 'nrho': 500, 'route': 'class'}]
+
+def check_plain_callables(case):
+    from atsim.potentials import EAMPotential, Potential
+    from atsim.potentials import writeTABEAM, writeTABEAMFinnisSinclair
+    from atsim.potentials.eam_tabulation import TABEAM_EAMTabulation, TABEAM_FinnisSinclair_EAMTabulation
+    def coul(r):
+        try: return 14.4 * -1.5 / r
+        except ZeroDivisionError: return 0.0
+    def dens(r): return 3.0 / (1.0 + r * r) if r > 0.5 else 2.5
+    def emb(rho): return -(rho ** 0.5) if rho >= 0 else 0.0
+    def dens2(r):
+        try: return 1.0 / r
+        except ZeroDivisionError: return 0.0
+    nr, nrho, dr, drho = case['nr'], case['nrho'], 0.01, 0.05
+    if case['fs']: eam = [EAMPotential('Al', 13, 26.98, emb, {'Al': dens, 'Cu': dens2}), EAMPotential('Cu', 29, 63.55, emb, {'Al': dens2, 'Cu': dens})]
+    else: eam = [EAMPotential('Al', 13, 26.98, emb, dens), EAMPotential('Cu', 29, 63.55, emb, dens2)]
+    pots = [Potential('Al', 'Cu', coul)]
+    out = io.StringIO()
+    try:
+        if case['route'] == 'function': (writeTABEAMFinnisSinclair if case['fs'] else writeTABEAM)(nrho, drho, nr, dr, eam, pots, out)
+        else: (TABEAM_FinnisSinclair_EAMTabulation if case['fs'] else TABEAM_EAMTabulation)(pots, eam, dr * (nr - 1), nr, drho * (nrho - 1), nrho).write(out)
+        declared, blocks = parse_tabeam(out.getvalue())
+    except Exception as e: return ['TABEAM with plain Python functions: %s: %s' % (type(e).__name__, str(e)[:120])]
+    fails = []
+    fn = {('pair', 'Al', 'Cu'): coul, ('pair', 'Cu', 'Al'): coul, ('embe', 'Al'): emb, ('embe', 'Cu'): emb,
+          ('dens', 'Al'): dens, ('dens', 'Cu'): dens2, ('dens', 'Al', 'Al'): dens, ('dens', 'Al', 'Cu'): dens2, ('dens', 'Cu', 'Al'): dens2, ('dens', 'Cu', 'Cu'): dens}
+    for b in blocks:
+        f = fn.get(tuple([b['kind']] + list(b['species'])), (lambda x: 0.0))
+        step = (drho if b['kind'] == 'embe' else (dr if case['route'] == 'function' else (dr * (nr - 1)) / (nr - 1)))
+        if len(b['vals']) != b['n']: fails.append('%s %s: %d values for n = %d' % (b['kind'], b['species'], len(b['vals']), b['n'])); continue
+        for i, v in enumerate(b['vals']):
+            w = f(i * step)
+            if not (abs(v - w) <= 1e-6 + 1e-9 * abs(w)): fails.append("block '%s %s', row %d: file has %r, the function gives %r at %r" % (b['kind'], ' '.join(b['species']), i, v, w, i * step)); break
+    return fails[:4]
+
 def oracle(case):
+    if case.get('plain_callables'): return check_plain_callables(case)
     fs = case['fs']
     fails = []
     if case.get('potable_eam'):
@@ -221,6 +261,7 @@ def oracle(case):
 def search_cases(rng, n):
     for c in potable_corpus(): yield c
     for c in long_label_corpus(): yield c
+    for c in plain_callable_corpus(): yield c
     for k in range(n // 4):
         yield gen_case(rng)
         if k % 6 == 0:
